@@ -778,11 +778,14 @@ var MergeFunc = function.New(&function.Spec{
 		first := cty.NilType
 		matching := true
 		attrsKnown := true
-		for i, arg := range args {
+		hasDynamic := false
+		for _, arg := range args {
 			ty := arg.Type()
-			// any dynamic args mean we can't compute a type
+			// any dynamic args mean we can't compute a type, but the
+			// remaining arguments must still be checked
 			if ty.Equals(cty.DynamicPseudoType) {
-				return cty.DynamicPseudoType, nil
+				hasDynamic = true
+				continue
 			}
 
 			// check for invalid arguments
@@ -821,7 +824,7 @@ var MergeFunc = function.New(&function.Spec{
 				matching = false
 			}
 
-			if i == 0 {
+			if first == cty.NilType {
 				first = arg.Type()
 				continue
 			}
@@ -829,6 +832,10 @@ var MergeFunc = function.New(&function.Spec{
 			if !ty.Equals(first) && matching {
 				matching = false
 			}
+		}
+
+		if hasDynamic {
+			return cty.DynamicPseudoType, nil
 		}
 
 		// the types all match, so use the first argument type
